@@ -350,6 +350,13 @@ func (c *Ctx) boundsDebug(name string) {
 			fmt.Println("    at block", hb.Index, ":", linString(f.l), ">= 0")
 		}
 	}
+	for ld, vals := range a.memPhi {
+		fmt.Print("memphi ", ld.Name(), " at block ", ld.Block().Index, ":")
+		for _, v := range vals {
+			fmt.Print(" ", v.Name())
+		}
+		fmt.Println()
+	}
 	if sum := retSummaryOf(fn); sum != nil {
 		fmt.Println("return summary:")
 		for _, f := range sum.facts {
